@@ -150,13 +150,13 @@ def check_jitter(ctx, drv, rng, td):
     ctx.coverage["distinct_nontrivial"] += 1
 
 
-def check_seeds(ctx, rng, td):
-    """sensitivity-sample: workload i is generated from seed start_seed + i"""
+def check_seeds(ctx, rng, td, start=None, file_seed=None):
+    """sensitivity-sample: workload i is generated from seed start_seed + i (also for seed 0, and whatever seed the parameter file holds)"""
     import eudoxia.tools as tools
-    start = rng.randint(0, 10 ** 5)
+    start = rng.randint(0, 10 ** 5) if start is None else start
     n = rng.randint(2, 4)
     pf = os.path.join(td, "p.toml")
-    open(pf, "w").write("duration = 1\nticks_per_second = 10\n")
+    open(pf, "w").write("duration = 1\nticks_per_second = 10\n" + (f"random_seed = {file_seed}\n" if file_seed is not None else ""))
     tasks = []
 
     class FakePool:
@@ -211,6 +211,9 @@ def run(ctx):
                 check_snap(ctx, drv, rng, td)
             for i in range(100 if ctx.quick() else 1000):
                 check_jitter(ctx, drv, rng, td)
+            check_seeds(ctx, rng, td, start=0, file_seed=1)
+            check_seeds(ctx, rng, td, start=0)
+            check_seeds(ctx, rng, td, start=41, file_seed=42)
             for i in range(3 if ctx.quick() else 10):
                 check_seeds(ctx, rng, td)
     finally:
